@@ -46,13 +46,15 @@ std::string propCounter(const FmmCase& c){
         return std::unique_ptr<Tree>(new Tree(config, in.data, c.blockSize, c.oneGroupPerParent != 0));
     };
     const int nbExec = 1 + int(c.salt % 3);
+    // each "execution" is the history of the case: one full call, or a staged sequence of calls whose flags partition the operators
+    std::vector<int> calls = c.history; if(calls.empty()) calls.push_back(63);
 
     // reference: unwrapped kernel, sequential
     auto treeA = build();
     probe::Ctx ctxA(c.salt); ctxA.dim = Dim; ctxA.height = H; ctxA.base = H - 1; ctxA.logging = false; ctxA.checking = false;
     {
         std::unique_ptr<PlainAlgo> a; if(c.lstop == -100) a.reset(new PlainAlgo(config, Plain(&ctxA))); else a.reset(new PlainAlgo(config, Plain(&ctxA), long(c.lstop)));
-        for(int e = 0 ; e < nbExec ; ++e) a->execute(*treeA);
+        for(int e = 0 ; e < nbExec ; ++e) for(int fl : calls) a->execute(*treeA, fl);
     }
     // wrapped kernel
     auto treeB = build();
@@ -60,32 +62,60 @@ std::string propCounter(const FmmCase& c){
     msched::global().reset(c.threads, c.sched);
     typename Counting::ReduceType merged;
     long nbKernels = 0, nbKernelsUsed = 0;
+    std::string counterErr; long modelM2L = 0, modelP2P = 0;
     {
         std::unique_ptr<Algo> a; if(c.lstop == -100) a.reset(new Algo(config, Counting(&ctxB))); else a.reset(new Algo(config, Counting(&ctxB), long(c.lstop)));
-        for(int e = 0 ; e < nbExec ; ++e){
-            std::vector<uint32_t> s2 = c.sched; if(!s2.empty()) s2.push_back(uint32_t(e) * 40503u);
-            msched::global().reset(c.threads, s2);
-            a->execute(*treeB);
+        // model counts per operator and execution
+        long eP2M = 0, eM2M = 0, eM2L = 0, eP2P = 0, eInner = 0;
+        if(H > lstop) eP2M = long(mt.leaves.size());
+        for(int l = std::max(lstop, 0) ; l <= H - 2 ; ++l) eM2M += long(mt.cells[size_t(l + 1)].size());
+        for(int l = std::max(lstop, 0) ; l <= H - 1 ; ++l) for(const Coord& T : mt.cells[size_t(l)]) for(const rm::Pair& p : rm::transferList(Dim, l, T, false)) if(mt.has(l, p.src)) eM2L += 1;
+        for(const auto& kv : mt.leaves){
+            const long n = long(kv.second.size());
+            eInner += n * (n - 1);
+            for(const rm::Pair& p : rm::neighborList(Dim, H - 1, kv.first, false)){ auto it = mt.leaves.find(p.src); if(it != mt.leaves.end() && kv.first < p.src) eP2P += n * long(it->second.size()); }
         }
-        // merge as documented, in a generated order
-        std::vector<typename Counting::ReduceType> parts;
-        a->applyToAllKernels([&](const auto& k){ parts.push_back(k.getReduceData()); });
-        nbKernels = long(parts.size());
-        for(const auto& p : parts) if(p.P2M + p.M2M + p.M2L + p.L2L + p.L2P + p.P2P + p.P2PInner > 0) nbKernelsUsed += 1;
+        modelM2L = eM2L; modelP2P = eP2P;
         // "merge order of per-worker counters arbitrary": a generated reduction tree - any two partial results are merged, in
         // either operand order, until one remains (the documented left fold from a zero accumulator is one such tree)
-        parts.push_back(typename Counting::ReduceType());
         uint64_t r = c.salt * 0x9E3779B97F4A7C15ull + 12345;
-        while(parts.size() > 1){
-            r = gf::splitmix(r);
-            const size_t i = size_t(r % parts.size());
-            size_t j = size_t((r >> 20) % (parts.size() - 1)); if(j >= i) j += 1;
-            const auto m = ((r >> 40) & 1) ? Counting::ReduceType::Reduce(parts[i], parts[j]) : Counting::ReduceType::Reduce(parts[j], parts[i]);
-            parts[std::min(i, j)] = m;
-            parts.erase(parts.begin() + long(std::max(i, j)));
+        auto mergeNow = [&](){
+            std::vector<typename Counting::ReduceType> parts;
+            a->applyToAllKernels([&](const auto& k){ parts.push_back(k.getReduceData()); });
+            nbKernels = long(parts.size());
+            nbKernelsUsed = 0;
+            for(const auto& p : parts) if(p.P2M + p.M2M + p.M2L + p.L2L + p.L2P + p.P2P + p.P2PInner > 0) nbKernelsUsed += 1;
+            parts.push_back(typename Counting::ReduceType());
+            while(parts.size() > 1){
+                r = gf::splitmix(r);
+                const size_t i = size_t(r % parts.size());
+                size_t j = size_t((r >> 20) % (parts.size() - 1)); if(j >= i) j += 1;
+                const auto m = ((r >> 40) & 1) ? Counting::ReduceType::Reduce(parts[i], parts[j]) : Counting::ReduceType::Reduce(parts[j], parts[i]);
+                parts[std::min(i, j)] = m;
+                parts.erase(parts.begin() + long(std::max(i, j)));
+            }
+            return parts[0];
+        };
+        // number of times each operator flag has been requested so far (bit 0 P2P ... bit 5 L2P)
+        long times[6] = {0, 0, 0, 0, 0, 0};
+        for(int e = 0 ; e < nbExec && counterErr.empty() ; ++e){
+            for(size_t ic = 0 ; ic < calls.size() && counterErr.empty() ; ++ic){
+                std::vector<uint32_t> s2 = c.sched; if(!s2.empty()) s2.push_back(uint32_t(e) * 40503u + uint32_t(ic) * 977u);
+                msched::global().reset(c.threads, s2);
+                a->execute(*treeB, calls[ic]);
+                for(int b = 0 ; b < 6 ; ++b) if(calls[ic] & (1 << b)) times[b] += 1;
+                // the counters are read between the calls: each operator counter = (times its flag was requested) x (model count)
+                merged = mergeNow();
+                auto cmp = [&](const char* name, long got, long exp, long n){
+                    if(counterErr.empty() && got != exp * n){ std::ostringstream os; os << "counter " << name << " reports " << got << " after its operator was requested " << n << " time(s) (execution " << e + 1 << ", call " << ic + 1 << " of " << calls.size() << ", flags " << calls[ic] << "), the tree implies " << exp << " per request"; counterErr = os.str(); }
+                };
+                cmp("P2M", merged.P2M, eP2M, times[1]); cmp("M2M", merged.M2M, eM2M, times[2]); cmp("M2L", merged.M2L, eM2L, times[3]);
+                cmp("L2L", merged.L2L, eM2M, times[4]); cmp("L2P", merged.L2P, eP2M, times[5]);
+                cmp("P2P", merged.P2P, eP2P, times[0]); cmp("P2PInner", merged.P2PInner, eInner, times[0]);
+            }
         }
-        merged = parts[0];
     }
+    if(!counterErr.empty()) return counterErr;    // (the executions were stopped at the first wrong counter: the trees are not comparable)
     // results unchanged by the wrapper
     std::string err;
     {
@@ -95,28 +125,10 @@ std::string propCounter(const FmmCase& c){
         if(err.empty() && fh::valueSnapshot(*treeA, true, true, false) != fh::valueSnapshot(*treeB, true, true, false)) err = "wrapping the kernel in the counter changed cell expansions";
     }
     if(!err.empty()) return err;
-    // model counts
-    long eP2M = 0, eM2M = 0, eM2L = 0, eP2P = 0, eInner = 0;
-    if(H > lstop) eP2M = long(mt.leaves.size());
-    for(int l = std::max(lstop, 0) ; l <= H - 2 ; ++l) eM2M += long(mt.cells[size_t(l + 1)].size());
-    for(int l = std::max(lstop, 0) ; l <= H - 1 ; ++l) for(const Coord& T : mt.cells[size_t(l)]) for(const rm::Pair& p : rm::transferList(Dim, l, T, false)) if(mt.has(l, p.src)) eM2L += 1;
-    for(const auto& kv : mt.leaves){
-        const long n = long(kv.second.size());
-        eInner += n * (n - 1);
-        for(const rm::Pair& p : rm::neighborList(Dim, H - 1, kv.first, false)){ auto it = mt.leaves.find(p.src); if(it != mt.leaves.end() && kv.first < p.src) eP2P += n * long(it->second.size()); }
-    }
-    auto cmp = [&](const char* name, long got, long exp) -> std::string {
-        if(got != exp * nbExec){ std::ostringstream os; os << "counter " << name << " reports " << got << " after " << nbExec << " execution(s), the tree implies " << exp << " per execution"; return os.str(); }
-        return "";
-    };
-    if(!(err = cmp("P2M", merged.P2M, eP2M)).empty()) return err;
-    if(!(err = cmp("M2M", merged.M2M, eM2M)).empty()) return err;
-    if(!(err = cmp("M2L", merged.M2L, eM2L)).empty()) return err;
-    if(!(err = cmp("L2L", merged.L2L, eM2M)).empty()) return err;
-    if(!(err = cmp("L2P", merged.L2P, eP2M)).empty()) return err;
-    if(!(err = cmp("P2P", merged.P2P, eP2P)).empty()) return err;
-    if(!(err = cmp("P2PInner", merged.P2PInner, eInner)).empty()) return err;
+    if(!counterErr.empty()) return counterErr;
+    const long eM2L = modelM2L, eP2P = modelP2P;
     st.cls("executes=" + std::to_string(nbExec));
+    if(calls.size() > 1) st.cls("staged-history (counters read between the calls)");
     st.cls("kernel-copies", nbKernels);
     if(nbKernelsUsed >= 2) st.cls("counts-spread-over>=2-kernel-copies");
     const bool nontrivial = (RT == 1) ? (nbKernelsUsed >= 2) : (eM2L > 0 && eP2P > 0);
@@ -129,7 +141,7 @@ std::string propCounter(const FmmCase& c){
 int main(int argc, char** argv){
     hc::Args a = hc::parseArgs(argc, argv);
     if(a.prop.empty()){ std::cerr << "usage: --prop C18 ...\n"; return 2; }
-    pbt::GenCfg g; g.dim = Dim; g.lstops = true;
+    pbt::GenCfg g; g.dim = Dim; g.lstops = true; g.histories = true; g.historyOneIn = 2;
     static const int hmax[5] = {0, 8, 6, 5, 4};
     g.maxH = int(a.getInt("maxh", hmax[Dim])); g.maxN = int(a.getInt("maxn", 150));
 #if RT == 1
